@@ -38,6 +38,10 @@ type Exec struct {
 	calls    map[string]int // ordinal of calls by callee name (for call#k naming)
 	witnesses []witness
 	curTrail  []string
+	loopEff   map[string]*loopEffects
+	topTargetsDone  bool
+	topTargetsCache []modTarget
+	topTargetsAll   bool
 	sentinels map[string]Val
 	compInt   map[string]intInfo
 }
@@ -350,6 +354,7 @@ type loopEffects struct {
 	comps  map[string]Sort // full heap component names
 	all    bool
 	ghosts bool
+	acquires bool // the blocks (re)acquire a monitor lock
 }
 
 func (e *loopEffects) add(ts []modTarget) {
@@ -381,6 +386,7 @@ func (x *Exec) loopHead(fr *Frame, li *loopInfo, pre *State) (*State, error) {
 	// entry obligations
 	for ci, c := range invs {
 		env := x.envFor(fr, pre, fr.entry)
+		env.loop = li
 		g, err := env.Bool(c.E)
 		if err != nil {
 			return nil, engineErr("%s loop %d invariant %q: %v", fname, li.ordinal, c.Text, err)
@@ -436,9 +442,16 @@ func (x *Exec) loopHead(fr *Frame, li *loopInfo, pre *State) (*State, error) {
 			h.Vars[k] = x.u.FreshVal(k+".havoc", v.T)
 		}
 	}
+	// implicit invariant: the heap differs from the entry heap only where the modifies clause allows
+	if !eff.all {
+		if err := x.frameInvariant(fr, li, pre, h, eff, true); err != nil {
+			return nil, err
+		}
+	}
 	// assume invariants
 	for _, c := range invs {
 		env := x.envFor(fr, h, fr.entry)
+		env.loop = li
 		g, err := env.Bool(c.E)
 		if err != nil {
 			return nil, engineErr("%s loop %d invariant %q: %v", fname, li.ordinal, c.Text, err)
@@ -448,6 +461,11 @@ func (x *Exec) loopHead(fr *Frame, li *loopInfo, pre *State) (*State, error) {
 	if len(invs) == 0 {
 		x.u.Trust(fmt.Sprintf("loop %d of %s has no invariant: only facts about state the loop does not modify survive it", li.ordinal, fname))
 	}
+	if eff.acquires {
+		// the loop only waits on the monitor: "the state when the lock was last acquired" is the head state
+		h.Snap["lock"] = h.Clone()
+	}
+	x.loopEff[fmt.Sprintf("f%d.L%d", fr.id, li.ordinal)] = eff
 	// remember variant value at head
 	for _, c := range clauses {
 		if c.Kind == "decreases" {
@@ -464,8 +482,14 @@ func (x *Exec) loopHead(fr *Frame, li *loopInfo, pre *State) (*State, error) {
 
 func (x *Exec) loopBack(fr *Frame, li *loopInfo, st *State) error {
 	fname := x.fnShort(fr.fn)
+	if eff := x.loopEff[fmt.Sprintf("f%d.L%d", fr.id, li.ordinal)]; eff != nil && !eff.all {
+		if err := x.frameInvariant(fr, li, st, nil, eff, false); err != nil {
+			return err
+		}
+	}
 	for ci, c := range x.loopClauses(fr, li) {
 		env := x.envFor(fr, st, fr.entry)
+		env.loop = li
 		switch c.Kind {
 		case "invariant":
 			g, err := env.Bool(c.E)
@@ -487,6 +511,103 @@ func (x *Exec) loopBack(fr *Frame, li *loopInfo, st *State) error {
 		}
 	}
 	return nil
+}
+
+// frameInvariant treats the function's modifies clause as an implicit invariant of every loop:
+// for each heap component the loop may write, objects that existed at function entry and are not named by
+// the modifies clause keep their entry value. atHead: check it for the state entering the loop (pre) and
+// assume it for the havocked head state (h); otherwise check it for the state at a back edge (pre).
+func (x *Exec) frameInvariant(fr *Frame, li *loopInfo, pre *State, h *State, eff *loopEffects, atHead bool) error {
+	u := x.u
+	top := x.topFrame
+	if top == nil || top.entry == nil || x.topFC == nil || x.waived("frame") {
+		return nil
+	}
+	targets, all, err := x.topTargets()
+	if err != nil {
+		return err
+	}
+	if all {
+		return nil
+	}
+	var names []string
+	for c := range eff.comps {
+		names = append(names, c)
+	}
+	sort.Strings(names)
+	for _, name := range names {
+		so := eff.comps[name]
+		if !so.IsArray() || strings.HasPrefix(name, "G$") {
+			continue
+		}
+		var mine []modTarget
+		whole := false
+		for _, t := range targets {
+			if t.Comp == name {
+				if t.Ref == nil {
+					whole = true
+				}
+				mine = append(mine, t)
+			}
+		}
+		if whole {
+			continue
+		}
+		ent := u.comp(top.entry, name, so)
+		cond := func(cur Term, r Term) Term {
+			var nt []Term
+			for _, t := range mine {
+				nt = append(nt, Neq(r, *t.Ref))
+			}
+			return Implies(And(append(nt, Le(App("root", SInt, r), top.entry.Alloc))...), Eq(Select(cur, r), Select(ent, r)))
+		}
+		cur := u.comp(pre, name, so)
+		if cur.S != ent.S {
+			sk := u.Fresh("frame.r", SInt)
+			kind := fmt.Sprintf("frame-inv-preserved.%sL%d.%s", x.inlineTag(fr), li.ordinal, name)
+			if atHead {
+				kind = fmt.Sprintf("frame-inv-entry.%sL%d.%s", x.inlineTag(fr), li.ordinal, name)
+			}
+			u.AddObligation(x.topName, kind, li.head.Instrs[0].Pos(), x.labels, name+" changes only where modifies allows (implicit loop invariant)", pre.PC, cond(cur, sk))
+		}
+		if atHead {
+			hc := u.comp(h, name, so)
+			q := Term{"qr", SInt}
+			u.Assume(Term{fmt.Sprintf("(forall ((qr Int)) (! %s :pattern ((select %s qr))))", cond(hc, q).S, hc.S), SBool})
+		}
+	}
+	return nil
+}
+
+// topTargets evaluates the modifies clause of the function under verification in its entry state.
+func (x *Exec) topTargets() ([]modTarget, bool, error) {
+	if x.topTargetsDone {
+		return x.topTargetsCache, x.topTargetsAll, nil
+	}
+	fr := x.topFrame
+	eenv := x.envFor(fr, fr.entry, fr.entry)
+	for k, v := range fr.paramVals {
+		eenv.names[k] = v
+	}
+	if err := eenv.bindLets(x.topFC); err != nil {
+		return nil, false, engineErr("%s: %v", x.topName, err)
+	}
+	var targets []modTarget
+	all := false
+	for _, it := range x.topFC.Modifies {
+		ts, err := x.modTargets(eenv, it)
+		if err != nil {
+			return nil, false, engineErr("%s modifies %q: %v", x.topName, it, err)
+		}
+		for _, t := range ts {
+			if t.All {
+				all = true
+			}
+		}
+		targets = append(targets, ts...)
+	}
+	x.topTargetsDone, x.topTargetsCache, x.topTargetsAll = true, targets, all
+	return targets, all, nil
 }
 
 func (u *Unit) zeroLike(t Term) Term {
@@ -777,6 +898,7 @@ func (x *Exec) monitorEffects(eff *loopEffects) {
 	if x.topFC == nil || len(x.topFC.Monitors) == 0 {
 		return
 	}
+	eff.acquires = true
 	env := x.envFor(x.topFrame, x.topFrame.entry, x.topFrame.entry)
 	for _, m := range x.topFC.Monitors {
 		for _, p := range m.Protects {
